@@ -22,6 +22,11 @@ REPR = Function("REPR", U, Str)            # repr(value)
 ISNONE = Function("ISNONE", U, B)          # value is None
 NONE_U = Const("NONE_U", U)
 SPLIT = Function("SPLIT", Str, Str, SeqStr)   # s.split(sep)
+SPLITLINES = Function("SPLITLINES", Str, SeqStr)   # s.splitlines()
+JOIN = Function("JOIN", Str, SeqStr, Str)          # sep.join(lines)
+OFNODE = Function("OFNODE", R, U)                  # a node seen as an arbitrary value (repr(node), "%s" % node)
+ISLIST = Function("ISLIST", U, B)     # isinstance(value, (list, tuple))
+ELEMS = Function("ELEMS", U, SeqU)             # the elements of a user value that is a list / tuple
 UPPER = Function("UPPER", Str, Str)            # s.upper()
 SEP = Function("SEP", R, Str)                  # node.separator (class attribute of the node class, non-empty)
 ROOT = Function("ROOT", R, R)                  # node.root (navigation contract, C04)
@@ -106,6 +111,8 @@ def toany(v):
         return OFSTR(StringVal(v.t))
     if v.k == "ref" and v.t is NONE:
         return NONE_U
+    if v.k == "ref":
+        return OFNODE(v.t)
     raise Unsupported("arbitrary value from %r" % (v,))
 
 
@@ -197,6 +204,16 @@ class TextExec(SeqExec):
             return [p]
         return SeqExec.s_Expr(self, st, p)
 
+    def e_List(self, e, p):
+        # a list literal of strings
+        if e.elts and all(isinstance(x, ast.Constant) and isinstance(x.value, str) for x in e.elts):
+            t = Unit(StringVal(e.elts[0].value))
+            for x in e.elts[1:]:
+                t = Concat(t, Unit(StringVal(x.value)))
+            yield p, V("qseq", t, {"elem": "str"})
+            return
+        yield from SeqExec.e_List(self, e, p)
+
     def e_Lambda(self, e, p):
         # one-argument predicate lambdas (default filter/stop) become callback symbols at once
         if len(e.args.args) == 1 and isinstance(e.body, ast.Constant) and isinstance(e.body.value, bool):
@@ -211,6 +228,42 @@ class TextExec(SeqExec):
             yield p, V("afn", fn)
             return
         yield from SeqExec.e_Lambda(self, e, p)
+
+    def s_For(self, st, p):
+        # `for x in self` where the object's class has an __iter__ under contract: iterate what the contract returns
+        if isinstance(st.iter, ast.Name) and st.iter.id in p.env and p.env[st.iter.id].k == "obj":
+            obj = p.env[st.iter.id]
+            spec = None
+            for c in self.reg.mro(obj.x):
+                spec = self.reg.methods.get((c, "__iter__"))
+                if spec is not None:
+                    break
+            if spec is not None:
+                out = []
+                for q, r in self.apply_named(spec, [obj], {}, p, "call:%s.__iter__" % obj.x):
+                    st2 = ast.copy_location(ast.For(target=st.target, iter=ast.Name(id="__iterated", ctx=ast.Load()), body=st.body,
+                                                    orelse=st.orelse, type_comment=None), st)
+                    ast.fix_missing_locations(st2.iter)
+                    self._ord_cache[("loop", id(st2))] = self.ordinal(st, "loop")
+                    q.env["__iterated"] = r
+                    for z in SeqExec.s_For(self, st2, q):
+                        z.env.pop("__iterated", None)
+                        out.append(z)
+                return out
+        return SeqExec.s_For(self, st, p)
+
+    def local_gen_start(self, fi):
+        # nested generators in the text world produce lines of text
+        return Empty(SeqStr)
+
+    def local_gen_value(self, p):
+        return V("qseq", p.out, {"elem": "str"})
+
+    def narrow_isinstance(self, v, types, positive, p):
+        """`if isinstance(x, (list, tuple)):` - in the true branch x is the sequence of its elements"""
+        if v.k == "any" and positive and isinstance(types, ast.Tuple) and sorted(ast.unparse(t) for t in types.elts) == ["list", "tuple"]:
+            return V("useq", ELEMS(v.t), {"of": v.t})
+        return v
 
     def helper_as_value(self, h, p):
         # a module-level `def f(x): return x` used as the default attriter is the identity lambda under another name
@@ -230,7 +283,7 @@ class TextExec(SeqExec):
             return v.t[0]
         if v.k == "afn":
             return BoolVal(True)
-        if v.k == "bseq":
+        if v.k in ("bseq", "useq"):
             return Length(v.t) > 0
         if v.k in ("optufn", "optufn2"):
             return v.t[0]
@@ -335,7 +388,7 @@ class TextExec(SeqExec):
         if obj.k == "row" and attr in ("pre", "fill", "node"):
             yield p, (vstr(getattr(Row, attr)(obj.t)) if attr != "node" else vref(Row.node(obj.t)))
             return
-        if obj.k in ("str", "pystr") and attr in ("split", "startswith", "upper"):
+        if obj.k in ("str", "pystr") and attr in ("split", "startswith", "upper", "splitlines"):
             yield p, V("strmethod", (obj, attr))
             return
         if obj.k == "ref" and attr not in ("children", "parent", "is_leaf"):
@@ -411,6 +464,11 @@ class TextExec(SeqExec):
             h = If(hi.t < 0, hi.t + n, hi.t)
             yield p, V("segs", (fl, If(h < 0, 0, If(h > n, n, h)), a, b))
             return
+        if obj.k == "useq" and hi is None and lo is not None and lo.k == "int" and isinstance(e.slice.lower, ast.Constant) \
+                and e.slice.lower.value == 1:
+            from z3 import Extract
+            yield p, V("useq", Extract(obj.t, 1, Length(obj.t) - 1), dict(obj.x or {}))     # s[1:]
+            return
         if obj.k == "qseq" and hi is None and lo is not None and lo.k == "int" and isinstance(e.slice.lower, ast.Constant) \
                 and e.slice.lower.value == 1:
             from z3 import Extract
@@ -437,6 +495,13 @@ class TextExec(SeqExec):
         raise Unsupported("cache key %r (the contract expects the pair (pattern, ignorecase))" % (key,))
 
     def subscript_load(self, obj, key, p, e):
+        if obj.k == "useq" and key.k == "int":
+            s = obj.t
+            idx = If(key.t < 0, key.t + Length(s), key.t)
+            self.oblig(p, "SAFE", "index", And(0 <= idx, idx < Length(s)), note="no IndexError")
+            p.assume(0 <= idx, idx < Length(s))
+            yield p, V("any", s[idx])
+            return
         if obj.k == "bseq" and key.k == "int":
             s = obj.t
             idx = If(key.t < 0, key.t + Length(s), key.t)
@@ -579,6 +644,11 @@ class TextExec(SeqExec):
         return SeqExec.as_iterseq(self, v, p)
 
     def call_value(self, fv, pos, kw, p, e):
+        if fv.k == "selector" and len(pos) == 1 and pos[0].k == "ref" and not kw:
+            # an attribute selector that is a callable: applied to the node (only reached where callable(selector) holds)
+            self.oblig(p, "SAFE", "callable", fv.t[0], note="the selector is called only if it is callable")
+            yield p, V("any", appU(fv.t[1], pos[0].t))
+            return
         if fv.k == "strmethod":
             s, m = fv.t
             st = tostr(s)
@@ -586,10 +656,15 @@ class TextExec(SeqExec):
                 fl, n, a, b = pos[0].t
                 yield p, vstr(JOINSEG(fl, n, a, b))
                 return
+            if m == "join" and len(pos) == 1 and pos[0].k in ("qseq", "gen") and (pos[0].x or {}).get("elem") == "str":
+                yield p, vstr(JOIN(st, self.seqterm(pos[0], p)))
+                return
             if m == "upper" and not pos:
                 yield p, vstr(UPPER(st))
             elif m == "startswith" and len(pos) == 1:
                 yield p, vbool(PrefixOf(tostr(pos[0]), st))
+            elif m == "splitlines" and not pos:
+                yield p, V("qseq", SPLITLINES(st), {"elem": "str"})
             elif m == "split" and len(pos) == 1:
                 sep = tostr(pos[0])
                 sp = SPLIT(st, sep)
@@ -742,10 +817,24 @@ class TextExec(SeqExec):
         if name == "len" and pos and pos[0].k in ("str", "pystr"):
             yield p, vint(Length(tostr(pos[0])))
             return
-        if name == "getattr" and len(pos) == 3 and pos[0].k == "ref":
+        if name == "getattr" and len(pos) == 3 and pos[0].k == "ref" and pos[1].k != "selector":
             nm = toany(pos[1])
             d = toany(pos[2])
             yield p, V("any", If(HAS(pos[0].t, nm), ATTR(pos[0].t, nm), d))
+            return
+        if name == "callable" and len(pos) == 1 and pos[0].k == "selector":
+            yield p, vbool(pos[0].t[0])
+            return
+        if name == "getattr" and len(pos) == 3 and pos[0].k == "ref" and pos[1].k == "selector":
+            nm = OFSTR(pos[1].t[2])
+            yield p, V("any", If(HAS(pos[0].t, nm), ATTR(pos[0].t, nm), toany(pos[2])))
+            return
+        if name == "isinstance" and len(pos) == 2 and pos[0].k == "any" and pos[1].k == "tuple" \
+                and sorted(x.t for x in pos[1].t if x.k == "builtin") == ["list", "tuple"] and len(pos[1].t) == 2:
+            yield p, vbool(ISLIST(pos[0].t))
+            return
+        if name == "isinstance" and len(pos) == 2 and pos[0].k == "useq":
+            yield p, vbool(BoolVal(True))
             return
         if name == "str":
             yield p, vstr(tostr(pos[0]))
@@ -899,6 +988,11 @@ class TextWorld(SeqWorld):
             return V("optseq", (Const("arg_%s_given" % n, B), Const("arg_" + n, SeqU)))
         if k == "any":
             return V("any", Const("arg_" + n, U))
+        if k == "row":
+            return V("row", Const("arg_" + n, Row))
+        if k == "selector":
+            # str-or-callable attribute selector: (is callable, the function, the attribute name)
+            return V("selector", (Const("arg_%s_callable" % n, B), Const("arg_%s_fn" % n, UFn), String("arg_%s_name" % n)))
         if k == "strlist":
             return V("qseq", Const("arg_" + n, SeqStr), {"elem": "str"})
         if k == "bseq":
